@@ -128,6 +128,25 @@ def scenarios(prop, tier, seed=0):
                    oracles=BASE + ('deadlock', 'cancelled_clean', 'quiescent_complete')))
         L.append(S('c08_p1_drop_midway', [T('A', ('future_sync', 0, {'fut': ('gate', 0), 'as': 'f'}), ('poll', 'f'), ('poll', 'f'), ('drop_fut', 'f'), ('desync', 0))], pool_max=1, R=3, B=18,
                    oracles=BASE + ('deadlock', 'cancelled_clean', 'quiescent_complete')))
+    elif prop == 'C05':
+        MEM = BASE + ('memory', 'drop_waits', 'deadlock')
+        L.append(S('c05_p1_desync_drop', [T('A', ('d_new', 'd'), ('d_desync', 'd'), ('d_drop', 'd'))], pool_max=1, queues=0, R=3, B=16, oracles=MEM))
+        L.append(S('c05_p1_fut_drop', [T('A', ('d_new', 'd'), ('d_future_desync', 'd', {'fut': ('gate', 0), 'as': 'f'}), ('detach', 'f'), ('d_drop', 'd')), T('W', ('open_gate', 0))],
+                   pool_max=1, queues=0, R=3, B=16, oracles=MEM))
+        L.append(S('c05_p1_drop_elsewhere', [T('A', ('d_new', 'd'), ('d_desync', 'd'), ('d_give', 'd', 0)), T('B', ('d_take', 0, 'd'), ('d_drop', 'd'))],
+                   pool_max=1, queues=0, R=3, B=16, oracles=MEM))
+        if not q:
+            L.append(S('c05_p1_two_desync_drop', [T('A', ('d_new', 'd'), ('d_desync', 'd'), ('d_desync', 'd'), ('d_drop', 'd'))], pool_max=1, queues=0, R=3, B=18, oracles=MEM))
+            L.append(S('c05_p0_desync_drop', [T('A', ('d_new', 'd'), ('d_desync', 'd'), ('d_drop', 'd'))], pool_max=0, queues=0, R=2, B=24, oracles=MEM))
+    elif prop == 'C14':
+        MEM = BASE + ('memory',)
+        L.append(S('c14_p1_desync_sync_drop', [T('A', ('d_new', 'd'), ('d_desync', 'd'), ('d_sync', 'd'), ('d_drop', 'd'))], pool_max=1, queues=0, R=3, B=18, oracles=MEM))
+        L.append(S('c14_p0_sync_sync_desync', [T('A', ('sync', 0)), T('B', ('sync', 0)), T('C', ('desync', 0))], pool_max=0, R=3, B=14, oracles=MEM))
+        L.append(S('c14_p1_desync_sync', [T('A', ('desync', 0)), T('B', ('sync', 0))], pool_max=1, R=3, B=14, oracles=MEM))
+        L.append(S('c14_p1_try_sync_drop', [T('A', ('d_new', 'd'), ('d_try_sync', 'd'), ('d_desync', 'd'), ('d_drop', 'd'))], pool_max=1, queues=0, R=3, B=18, oracles=MEM))
+        if not q:
+            L.append(S('c14_p1_fut_sync_drop', [T('A', ('d_new', 'd'), ('d_future_desync', 'd', {'fut': ('gate', 0), 'as': 'f'}), ('detach', 'f'), ('d_sync', 'd'), ('d_drop', 'd')), T('W', ('open_gate', 0))],
+                       pool_max=1, queues=0, R=3, B=18, oracles=MEM))
     return L
 
 def bounds_text(prop, tier):
